@@ -84,6 +84,135 @@ func zzIsKeywordType(t token.Type) bool {
 	return sym.And(t >= token.FUNCTION, t <= token.NULL)
 }
 
+// zzPunct is the reference (R2) view of the subset's operators and
+// punctuation at offset s: token type, length, and whether the text is inside
+// the subset there (false: not a punctuator, or ECMAScript reads a longer
+// punctuator that the subset does not have, e.g. === ** => ... &&= <<).
+func zzPunct(w string, s int) (token.Type, int, bool) {
+	c := w[s]
+	var d, e byte
+	if s+1 < len(w) {
+		d = w[s+1]
+	}
+	if s+2 < len(w) {
+		e = w[s+2]
+	}
+	two := func(t token.Type) (token.Type, int, bool) { return t, 2, true }
+	one := func(t token.Type) (token.Type, int, bool) { return t, 1, true }
+	out := func() (token.Type, int, bool) { return token.ILLEGAL, 0, false }
+	switch c {
+	case '=':
+		if d == '=' {
+			if e == '=' {
+				return out() // ===
+			}
+			return two(token.EQ)
+		}
+		if d == '>' {
+			return out() // =>
+		}
+		return one(token.ASSIGN)
+	case '!':
+		if d == '=' {
+			if e == '=' {
+				return out() // !==
+			}
+			return two(token.NOT_EQ)
+		}
+		return one(token.NOT)
+	case '<':
+		if d == '=' {
+			return two(token.LTE)
+		}
+		if d == '<' {
+			return out() // <<
+		}
+		return one(token.LT)
+	case '>':
+		if d == '=' {
+			return two(token.GTE)
+		}
+		if d == '>' {
+			return out() // >> >>>
+		}
+		return one(token.GT)
+	case '&':
+		if d == '&' {
+			if e == '=' {
+				return out() // &&=
+			}
+			return two(token.AND)
+		}
+		return out() // & &= are not in the subset
+	case '|':
+		if d == '|' {
+			if e == '=' {
+				return out() // ||=
+			}
+			return two(token.OR)
+		}
+		return out()
+	case '+':
+		if d == '+' {
+			return two(token.INCREMENT)
+		}
+		if d == '=' {
+			return two(token.PLUS_ASSIGN)
+		}
+		return one(token.PLUS)
+	case '-':
+		if d == '-' {
+			return two(token.DECREMENT)
+		}
+		if d == '=' {
+			return two(token.MINUS_ASSIGN)
+		}
+		return one(token.MINUS)
+	case '*':
+		if d == '*' || d == '=' {
+			return out() // ** *=
+		}
+		return one(token.MULTIPLY)
+	case '/':
+		if d == '=' || d == '*' {
+			return out() // /= and block comments
+		}
+		return one(token.DIVIDE)
+	case '%':
+		if d == '=' {
+			return out()
+		}
+		return one(token.MODULO)
+	case ',':
+		return one(token.COMMA)
+	case ';':
+		return one(token.SEMICOLON)
+	case ':':
+		return one(token.COLON)
+	case '.':
+		if d == '.' && e == '.' {
+			return out() // ...
+		}
+		if d >= '0' && d <= '9' {
+			return out() // .5 is a number in ECMAScript
+		}
+		return one(token.DOT)
+	case '(':
+		return one(token.LPAREN)
+	case ')':
+		return one(token.RPAREN)
+	case '{':
+		return one(token.LBRACE)
+	case '}':
+		return one(token.RBRACE)
+	case '[':
+		return one(token.LBRACKET)
+	case ']':
+		return one(token.RBRACKET)
+	}
+	return out()
+}
+
 // ---------------------------------------------------------------- H10: one step of NextToken
 
 // zzWindow builds the input: `prefix` bytes the step must never look at, then
@@ -190,6 +319,15 @@ func ZZH10Step() {
 		}
 	} else {
 		sym.Assert(sym.And(tok.Type != token.IDENT, !zzIsKeywordType(tok.Type)), "identifier-needs-identifier-start")
+	}
+	// operators and punctuation of the subset: kind and extent by maximal munch
+	// (skipped where ECMAScript has a longer punctuator that is outside the subset)
+	if s < n && !zzIdentStart(w[s]) {
+		wantT, wantLen, known := zzPunct(w, s)
+		if known {
+			sym.Assert(tok.Type == wantT, "operator-or-punctuator-kind")
+			sym.Assert(q == s+wantLen, "operator-or-punctuator-extent")
+		}
 	}
 	// numbers carry exactly the slice they span
 	if tok.Type == token.INT || tok.Type == token.FLOAT {
